@@ -297,7 +297,12 @@ def run(F, R):
     un = [(bi, t) for bi, t in pe.calls() if lib.callee_is(t, "std::str::from_utf8_unchecked")]
     shapes = []
     safe_spelling = "unwrap_or(or_else(and_then(strip_prefix(etag, 'W/\"'), |$1| strip_suffix($1, 34)), || and_then(strip_prefix(etag, 34), |$1| strip_suffix($1, 34))), etag)"
-    if not un and terms.render(pe, pe.trace_local(0), W, {1: "etag"}) == safe_spelling:
+    if not un and terms.render(pe, pe.trace_local(0), W, {1: "etag"}) != safe_spelling and _safe_shapes(W, pe) == [("'W/\"'", "34"), ("34", "34"), "etag"]:
+        # the same three shapes in another safe spelling (helper fn, `?`, or/or_else/match): read as ordered alternatives
+        R.holds("C01-R6", "unchecked:none", "parse_etag uses no unchecked conversion (strip_prefix/strip_suffix spelling)")
+        R.holds("C01-R7", "accepted-shapes", "W/\"..\" then \"..\" then identity (ordered alternatives of strip_prefix+strip_suffix)")
+        R.holds("C01-R7", "identity-otherwise", "otherwise the ETag is used unchanged")
+    elif not un and terms.render(pe, pe.trace_local(0), W, {1: "etag"}) == safe_spelling:
         # the same three shapes written with str::strip_prefix/strip_suffix: no unchecked conversion to justify
         R.holds("C01-R6", "unchecked:none", "parse_etag uses no unchecked conversion (strip_prefix/strip_suffix spelling)")
         R.holds("C01-R7", "accepted-shapes", "W/\"..\" then \"..\" then identity: " + safe_spelling)
@@ -350,3 +355,40 @@ def run(F, R):
         for s_ in census.panic_sites(bv):
             R.violation("C01-R6", "panic-site:" + s_["key"], "panic-capable site %s on the verification path (%s)" % (s_["desc"], bv.name), s_["loc"])
     R.holds("C01-R6", "panic-census", "no panic-capable site in verify_response, the verifier, make_transaction_hash, parse_etag, Display for Nonce")
+
+
+def _safe_shapes(W, pe):
+    """parse_etag written without unsafe: the ordered alternatives it tries, as [(prefix, suffix), .., default] with each
+    alternative = input.strip_prefix(prefix)?.strip_suffix(suffix)  (None when the function has another form)."""
+    from .. import optnorm
+    import re as _re
+    t = terms._unref(pe.trace_local(0))
+    if not (t[0] == "call" and lib.norm(t[1]).endswith("Option::<T>::unwrap_or") and len(t[2]) == 2):
+        return None
+    dflt = terms.render(pe, t[2][1], W, {1: "etag"})
+
+    def tried(bv, x):
+        x = terms._unref(x)
+        if x[0] == "call" and lib.norm(x[1]).endswith("Option::<T>::or_else") and len(x[2]) == 2:
+            clo = optnorm._closure_of(x[2][1])
+            if clo is None or clo[2] not in W.by_id:
+                return None
+            cb = W.bv(clo[2])
+            body = optnorm.simplify(lib.subst_params(optnorm._ann(cb), [clo]))
+            a, b = tried(bv, x[2][0]), tried(cb, body)
+            return None if a is None or b is None else a + b
+        if x[0] == "call" and lib.norm(x[1]).endswith("Option::<T>::or") and len(x[2]) == 2:
+            a, b = tried(bv, x[2][0]), tried(bv, x[2][1])
+            return None if a is None or b is None else a + b
+        lv = optnorm.leaves(W, bv, x)
+        pays = [l for l in lv if l[0] in ("other", "some")]
+        if len(pays) != 1 or any(l[0] not in ("none", "other", "some") for l in lv):
+            return None
+        r = optnorm.canon(terms.render(bv, optnorm.inline_all(W, bv, pays[0][1]), W, {1: "etag"}))
+        m = _re.fullmatch(r"strip_suffix\(strip_prefix\(etag, (.+?)\)@OK, (.+?)\)(?:@OK)?", r)
+        if not m:
+            return None
+        norm = lambda z: "34" if z in ("'\"'", "34") else z
+        return [(norm(m.group(1)), norm(m.group(2)))]
+    alts = tried(pe, t[2][0])
+    return None if alts is None else alts + [dflt]
